@@ -16,7 +16,8 @@ The operator set, operator strings and the precedence table are NOT written here
 
 Abstracted: positions, comments, MultiLine layout (differential harness only); `regexp.Compile` (every
 regex of the generator is valid; `Regex.String()` = the unescaped literal); floats are kept as their
-canonical decimal text (exact for literals of at most 15 significant digits, others are `na`);
+canonical decimal text, computed by an exact binary64 model (`F64`: correctly rounded parse, shortest decimal that
+parses back) for literals of any length and magnitude; Go's strconv algorithms themselves are an oracle;
 unicode classes are ASCII (`isLetter`/`isDigit`/`isSpace`), others are `na`.
 -/
 import Kap.Gen.C13
@@ -154,19 +155,128 @@ def stripLeadingZeros : List Char → List Char
   | '0' :: rest => stripLeadingZeros rest
   | cs => cs
 
-/-- canonical text of a float literal `int.frac` (what FormatFloat(ParseFloat(text),'f',-1,64) + ".0" rule gives),
-exact when the literal has at most 15 significant digits. -/
-def canonFloat (cs : List Char) : Res String :=
+/-! ## binary64 (strconv.ParseFloat / strconv.FormatFloat(f, 'f', -1, 64)), exact arithmetic on Nat
+
+`F64.parse` is a DEFINITION of correctly rounded decimal → binary64 conversion (round half to even, overflow is an
+error, underflow is 0): what strconv.ParseFloat documents. `F64.fmt` is a definition of "the shortest decimal that
+parses back, the closest one when two of that length do" printed in %f layout: what FormatFloat(f,'f',-1,64)
+documents; it only ever answers with a text it has parsed back itself (`fmt_parses_back`), a value for which no
+text of at most 20 digits parses back would be answered with `none` (never observed; classical result: 17 digits
+always do). Go's algorithms (Eisel-Lemire / Ryu) are NOT transcribed: they are an oracle tied to these definitions
+by the correspondence run (every float of every case: model text = real text, model value = real value). -/
+namespace F64
+
+/-- a finite non-negative binary64 value `m * 2^e`. What `round` returns is canonical: `m = 0 ∧ e = -1074`, or
+`2^52 ≤ m < 2^53 ∧ -1074 ≤ e ≤ 971` (normal), or `0 < m < 2^52 ∧ e = -1074` (subnormal). -/
+structure Val where
+  m : Nat
+  e : Int
+  deriving DecidableEq, Repr, Inhabited
+
+def p52 : Nat := 4503599627370496
+def p53 : Nat := 9007199254740992
+def eMin : Int := -1074
+def eMax : Int := 971
+
+/-- ⌊log2 (n/d)⌋ for n, d > 0 -/
+def floorLog2 (n d : Nat) : Int :=
+  let l : Int := (Nat.log2 n : Int) - (Nat.log2 d : Int)
+  let ge : Bool := if l ≥ 0 then decide (n ≥ d * 2 ^ l.toNat) else decide (n * 2 ^ (-l).toNat ≥ d)
+  if ge then l else l - 1
+
+/-- the rational n/d (d > 0) rounded to binary64, ties to even; `none` = out of range (ParseFloat: ±Inf, ErrRange) -/
+def round (n d : Nat) : Option Val :=
+  if n = 0 then some ⟨0, eMin⟩ else
+  let e0 := floorLog2 n d - 52
+  let e := if e0 < eMin then eMin else e0
+  let N := if e < 0 then n * 2 ^ (-e).toNat else n
+  let D := if e < 0 then d else d * 2 ^ e.toNat
+  let q := N / D
+  let r := N % D
+  let q' := if 2 * r > D || (2 * r = D && q % 2 = 1) then q + 1 else q
+  let m := if q' = p53 then p52 else q'
+  let e' := if q' = p53 then e + 1 else e
+  if e' > eMax then none else some ⟨m, e'⟩
+
+def natOfDigits (cs : List Char) : Nat := cs.foldl (fun a c => a * 10 + (c.toNat - 48)) 0
+
+/-- strconv.ParseFloat(text, 64) on a number token of the lexer: `digits . digits`, one side may be empty -/
+def parse (cs : List Char) : Option Val :=
   let ip := cs.takeWhile (· ≠ '.')
   let fp := (cs.dropWhile (· ≠ '.')).drop 1
-  if !(ip.all isDigit && fp.all isDigit) || (ip.isEmpty && fp.isEmpty) then .err else
-  let ip' := stripLeadingZeros ip
-  let fp' := (stripLeadingZeros fp.reverse).reverse
-  let sig := if ip'.isEmpty then (stripLeadingZeros fp').length else ip'.length + fp'.length
-  if sig > 15 then .na "float-more-than-15-digits" else
-  let i := if ip'.isEmpty then ['0'] else ip'
-  let f := if fp'.isEmpty then ['0'] else fp'
-  .ok (String.ofList (i ++ ['.'] ++ f))
+  if !(ip.all isDigit && fp.all isDigit) || (ip.isEmpty && fp.isEmpty) then none else
+  round (natOfDigits (ip ++ fp)) (10 ^ fp.length)
+
+/-- n/d ≥ 10^p -/
+def ge10 (n d : Nat) (p : Int) : Bool :=
+  if p ≥ 0 then decide (n ≥ d * 10 ^ p.toNat) else decide (n * 10 ^ (-p).toNat ≥ d)
+
+/-- ⌊log10 (n/d)⌋ for n, d > 0: estimate from the binary logarithm, corrected by comparison -/
+def floorLog10 (n d : Nat) : Int :=
+  let p0 := (floorLog2 n d * 30103) / 100000
+  let p1 := if ge10 n d p0 then p0 else p0 - 1
+  let p2 := if ge10 n d p1 then p1 else p1 - 1
+  let p3 := if ge10 n d (p2 + 1) then p2 + 1 else p2
+  if ge10 n d (p3 + 1) then p3 + 1 else p3
+
+def stripTrailingZeros (cs : List Char) : List Char := (cs.reverse.dropWhile (· = '0')).reverse
+
+def padLeft (k : Nat) (cs : List Char) : List Char := List.replicate (k - cs.length) '0' ++ cs
+
+/-- `D * 10^s` in %f layout with as many fraction digits as needed, and the `.0` NumberNode.Format appends to a
+text without decimal point -/
+def decText (D : Nat) (s : Int) : List Char :=
+  if s ≥ 0 then Nat.toDigits 10 (D * 10 ^ s.toNat) ++ ['.', '0']
+  else
+    let k := (-s).toNat
+    let fp := stripTrailingZeros (padLeft k (Nat.toDigits 10 (D % 10 ^ k)))
+    Nat.toDigits 10 (D / 10 ^ k) ++ '.' :: (if fp.isEmpty then ['0'] else fp)
+
+/-- of the two candidate texts take the one that parses back to `v`; the closer one (`up`) when both do -/
+def choose (v : Val) (tlo thi : List Char) (up : Bool) : Option (List Char) :=
+  if parse tlo == some v then
+    (if parse thi == some v then some (if up then thi else tlo) else some tlo)
+  else if parse thi == some v then some thi
+  else none
+
+/-- the value n/d cut to k significant digits (`lo`), the next k-digit decimal (`lo + 1`), both as text, and
+whether n/d is closer to the upper one (ties to even); `p` = ⌊log10 (n/d)⌋ -/
+def cands (n d : Nat) (p : Int) (k : Nat) : List Char × List Char × Bool :=
+  let s := p - ((k : Int) - 1)
+  let N := if s ≥ 0 then n else n * 10 ^ (-s).toNat
+  let D := if s ≥ 0 then d * 10 ^ s.toNat else d
+  let lo := N / D
+  let r := N % D
+  (decText lo s, decText (lo + 1) s, decide (2 * r > D) || (decide (2 * r = D) && decide (lo % 2 = 1)))
+
+/-- try k, k+1, … significant digits: the first length at which a candidate parses back to `v` wins -/
+def shortest (v : Val) (n d : Nat) (p : Int) : Nat → Nat → Option (List Char)
+  | 0, _ => none
+  | fuel + 1, k =>
+    match choose v (cands n d p k).1 (cands n d p k).2.1 (cands n d p k).2.2 with
+    | some t => some t
+    | none => shortest v n d p fuel (k + 1)
+
+def zeroText : List Char := ['0', '.', '0']
+
+/-- strconv.FormatFloat(v, 'f', -1, 64) followed by NumberNode.Format's `.0` rule -/
+def fmt (v : Val) : Option (List Char) :=
+  if v.m = 0 then (if parse zeroText == some v then some zeroText else none) else
+  let n := if v.e ≥ 0 then v.m * 2 ^ v.e.toNat else v.m
+  let d := if v.e ≥ 0 then 1 else 2 ^ (-v.e).toNat
+  shortest v n d (floorLog10 n d) 20 1
+
+end F64
+
+/-- canonical text of a float literal `int.frac`: FormatFloat(ParseFloat(text), 'f', -1, 64) with the ".0" rule.
+The float VALUE is kept as this text (`Num.flt`); `F64.parse` of the text gives the binary64 back. -/
+def canonFloat (cs : List Char) : Res String :=
+  match F64.parse cs with
+  | none => .err
+  | some v =>
+    match F64.fmt v with
+    | some t => .ok (String.ofList t)
+    | none => .na "float-no-short-decimal"
 
 /-- newNumber -/
 def newNumber (text : String) : Res Num :=
